@@ -401,7 +401,9 @@ class ProgGen:
         comment = self.rnd_comment() if r.random() < 0.3 else None
         iid = f["id"]
         if malformed:
-            m = r.randrange(8)
+            # case 8 (x86 programs that run under strict validation only: both emitters validate before they encode): one operand field
+            # rewritten - the case split of X86Dec.dec_x86 (register id, memory segment / broadcast / size / index / reg-home, immediate ranges)
+            m = r.randrange(9 if (getattr(self, "validated", False) and self.arch != 2) else 8)
             self.count("malformed_inst_%d" % m)
             if m == 0:      # hole in the operand list
                 if len(ops) >= 5 and r.random() < 0.6:
@@ -428,6 +430,32 @@ class ProgGen:
             elif m == 6:    # more operands than the form has
                 g = r.choice(forms)
                 ops = (ops + [list(w) for (k, w) in g["ops"] if k not in ("l", "ml")])[:6]
+            elif m == 8 and ops:
+                w = ops[r.randrange(len(ops))]
+                ty = w[0] & 7
+                if ty == 1:
+                    w[1] = r.choice([r.randrange(48), r.randrange(48), 255])
+                elif ty == 2:
+                    f = r.randrange(6)
+                    if f == 0:
+                        w[0] = (w[0] & ~(7 << 18)) | (r.randrange(8) << 18)
+                    elif f == 1:
+                        w[0] = (w[0] & ~(7 << 21)) | (r.randrange(8) << 21)
+                    elif f == 2:
+                        w[0] = (w[0] & 0x00FFFFFF) | (r.choice([0, 1, 2, 3, 4, 5, 6, 8, 10, 16, 32, 64, 128]) << 24)
+                    elif f == 3:
+                        w[0] = (w[0] & ~(31 << 8)) | (r.choice([0, 5, 6, 11, 12, 13, 4, 16]) << 8)
+                        w[2] = r.randrange(40)
+                    elif f == 4 and ((w[0] >> 3) & 31) > 1:
+                        w[1] = r.randrange(40)
+                    else:
+                        w[3] = r.choice([0, 1, 0x7FFFFFFF, 0x80000000, 0xFFFFFFFF, r.getrandbits(32)])
+                        if ((w[0] >> 3) & 31) == 0:
+                            w[1] = r.choice([0, 0, 1, 0x7FFFFFFF, 0x80000000, 0xFFFFFFFF])     # high half of an absolute 64-bit address
+                elif ty == 4:
+                    v = r.choice([7, 8, 15, 16, 127, 128, 255, 256, 32767, 32768, 65535, 65536, 2 ** 31 - 1, 2 ** 31, 2 ** 32 - 1, 2 ** 32, 2 ** 63 - 1,
+                                  -8, -9, -128, -129, -32768, -32769, -2 ** 31, -2 ** 31 - 1, -2 ** 63, r.getrandbits(64)]) & (2 ** 64 - 1)
+                    w[2], w[3] = v & 0xFFFFFFFF, v >> 32
             elif m == 7:    # invalid label id in a label operand (never in a memory operand: DESIGN 7.3 crashes the 32-bit path)
                 ops = [[5, 900 + r.randrange(50), 0, 0]]
                 iid = [x for x in forms if x["deco"] & D_LABELREF and x["ops"][0][0] == "l"][0]["id"]
@@ -608,7 +636,9 @@ class ProgGen:
             self.simple("EL %d %d" % (l, sz), "embed_label")
         elif x < 0.90 and self.nlabels:
             l, b = r.randrange(self.nlabels), r.randrange(self.nlabels)
-            sz = r.choice([0, 4, 8])
+            # 1 and 2 bytes: the range check of the immediate path / of the expression relocation (a delta that does not fit is refused at the
+            # call when both labels are bound in one section, at relocate_to_base otherwise)
+            sz = r.choice([0, 4, 8, 1, 2, 1])
             if mal:
                 l, b, sz = r.choice([(l, b, 3), (l, b, 16), (950, b, 4), (l, 951, 0)])
             self.simple("ED %d %d %d" % (l, b, sz), "embed_label_delta")
@@ -893,8 +923,10 @@ class ProgGen:
 
 def make_program(rng, cat, pidx, arch, kind, allow_xsec=False):
     """Returns (text, meta) of one program; regenerates until the DESIGN 7.14 shape (and, for well-formed kinds, a double bind) is absent."""
+    validate = kind in ("pure", "malformed") and rng.random() < 0.25
     for attempt in range(50):
         g = ProgGen(random.Random(rng.getrandbits(64)), cat, arch, kind, pidx, allow_xsec=allow_xsec)
+        g.validated = validate
         base1 = rng.choice([0x10000, 0x7F0000000000 if arch else 0x40000000, 0x400000])
         base2 = base1 + rng.choice([0x1000, 0x123000, 0x10000000 if arch else 0x100000])
         text, ref = g.text(base1, base2)
@@ -910,7 +942,6 @@ def make_program(rng, cat, pidx, arch, kind, allow_xsec=False):
         ref2, ok2 = reference_of(g.lines, cat)
         if not ok2 or ref2 != ref:
             raise RuntimeError("generator bookkeeping and reference_of disagree on program %d" % pidx)
-        validate = kind in ("pure", "malformed") and rng.random() < 0.25
         if validate:
             head, _, rest = text.partition("\n")
             text = head[:-1] + str(int(head[-1]) | 4) + "\n" + rest
@@ -918,3 +949,35 @@ def make_program(rng, cat, pidx, arch, kind, allow_xsec=False):
                       "ncmds": len(g.lines), "lines": g.lines, "ref": ref, "base": (base1, base2), "flags": (1 if kind != "edit" else 0) | (4 if validate else 0),
                       "validate": validate}
     raise RuntimeError("generator could not produce a program free of the 7.14 shape")
+
+
+# ------------------------------------------------------------------------------------------------ exhaustive sweep at the proofs' case split
+def sweep_programs(cat, start_pidx):
+    """One tiny program per (architecture, which of the six operand slots are used, strict validation off/on): the case split of
+    inst_node_faithful / canon_replayed / C08_all_operands_kept (64 patterns of is_none) compared exhaustively on the real Builder, Compiler and
+    Assembler in every run.  For each architecture the operand of the longest all-register form is used in every slot (AArch64: tbl, whose
+    prefixes are forms of their own)."""
+    out = []
+    pidx = start_pidx
+    for arch in (1, 0, 2):
+        cands = [f for f in cat.forms[arch] if f["ops"] and all(k == "r" for k, _w in f["ops"])]
+        if not cands:
+            continue
+        f = max(cands, key=lambda x: len(x["ops"]))
+        words = [list(w) for _k, w in f["ops"]]
+        for pat in range(64):
+            ops = [(words[min(i, len(words) - 1)] if (pat >> i) & 1 else [0, 0, 0, 0]) for i in range(6)]
+            n = max([i + 1 for i in range(6) if (pat >> i) & 1] or [0])
+            line = "I %d %d%s" % (f["id"], n, "".join(" " + " ".join(str(x) for x in w) for w in ops[:n]))
+            for validate in (0, 4):
+                lines = ["CM 2a", line] if pat & 1 else [line]
+                ref, ok = reference_of(lines, cat)
+                if not ok:
+                    raise RuntimeError("sweep program not well formed")
+                flags = 1 | validate
+                text = program_text(pidx, arch, 0x10000, 0x11000, flags, lines, ref)
+                out.append((text, {"pidx": pidx, "arch": arch, "kind": "malformed", "stats": {"operand_pattern_sweep": 1}, "double_bind": False,
+                                   "double_bind_at": None, "ncmds": len(lines), "lines": lines, "ref": ref, "base": (0x10000, 0x11000),
+                                   "flags": flags, "validate": bool(validate), "sweep": True}))
+                pidx += 1
+    return out
